@@ -54,35 +54,57 @@ def _job(args):
         out["used"] = sorted(res["used"])
         out["explore_s"] = res["explore_s"]
         tmo = QUICK_TIMEOUT_MS if tier == "quick" else THOROUGH_TIMEOUT_MS
-        canary_sat = False
+        global _CTX
+        obls = res["obligations"]
+        real_idx = [i for i, o in enumerate(obls) if o.kind != "canary"]
+        canary_idx = [i for i, o in enumerate(obls) if o.kind == "canary"]
+        _CTX = (eng, obls, tmo, tier)
+        nproc = max(1, min(INNER_PROCS, len(real_idx) // 12))
+        if nproc > 1:
+            with mp.get_context("fork").Pool(nproc) as pool:
+                recs = pool.map(_discharge_idx, real_idx, chunksize=4)
+        else:
+            recs = [_discharge_idx(i) for i in real_idx]
         samples = 0
-        for o in res["obligations"]:
-            if o.kind == "canary":
-                if canary_sat:
-                    continue
-                r = discharge(eng, o, 4000, fallback=False)
-                if r["status"] == "sat":
-                    canary_sat = True
-                out["obligations"].append(dict(name=o.name, kind=o.kind, status=r["status"], time=r["time"],
-                                               backend=r["backend"], labels=o.labels))
-                continue
-            r = discharge(eng, o, tmo)
-            rec = dict(name=o.name, kind=o.kind, status=r["status"], time=r["time"], backend=r["backend"],
-                       labels=o.labels, note=o.note)
-            if r["status"] == "sat":
-                rec["model"] = r.get("model")
-                rec["smt2"] = smt2_of(eng, o)[-6000:]
-            elif r["status"] == "unknown":
-                rec["reason"] = r.get("reason")
-            elif samples < 1 and o.kind == "property":
-                rec["smt2_sample"] = smt2_of(eng, o)[-2500:]
+        for rec in recs:
+            if rec.get("smt2_sample") and samples >= 1:
+                rec.pop("smt2_sample")
+            elif rec.get("smt2_sample"):
                 samples += 1
-            if tier == "thorough" and r["status"] == "unsat" and r["backend"].startswith("z3-5.1"):
-                rec["second"] = _second_opinion(eng, o)
             out["obligations"].append(rec)
+        for i in canary_idx:
+            o = obls[i]
+            r = discharge(eng, o, 4000, fallback=False)
+            out["obligations"].append(dict(name=o.name, kind=o.kind, status=r["status"], time=r["time"],
+                                           backend=r["backend"], labels=o.labels))
+            if r["status"] == "sat":
+                break
     except Exception:
         out["error"] = traceback.format_exc()
     return out
+
+
+_CTX = None
+INNER_PROCS = 8
+
+
+def _discharge_idx(i):
+    from pyvc.solve import discharge, smt2_of
+    eng, obls, tmo, tier = _CTX
+    o = obls[i]
+    r = discharge(eng, o, tmo)
+    rec = dict(name=o.name, kind=o.kind, status=r["status"], time=r["time"], backend=r["backend"],
+               labels=o.labels, note=o.note)
+    if r["status"] == "sat":
+        rec["model"] = r.get("model")
+        rec["smt2"] = smt2_of(eng, o)[-6000:]
+    elif r["status"] == "unknown":
+        rec["reason"] = r.get("reason")
+    elif o.kind == "property" and i % 7 == 0:
+        rec["smt2_sample"] = smt2_of(eng, o)[-2500:]
+    if tier == "thorough" and r["status"] == "unsat" and r["backend"].startswith("z3-5.1"):
+        rec["second"] = _second_opinion(eng, o)
+    return rec
 
 
 def _second_opinion(eng, o):
@@ -152,8 +174,9 @@ def check(prop: str, tier: str) -> int:
         return 3
     n = len(mod.CONTRACTS)
     jobs = [(prop, i, tier) for i in range(n)]
-    with mp.get_context("fork").Pool(min(16, max(1, n))) as pool:
-        results = pool.map(_job, jobs, chunksize=1)
+    from concurrent.futures import ProcessPoolExecutor
+    with ProcessPoolExecutor(max_workers=min(16, max(1, n)), mp_context=mp.get_context("fork")) as ex:
+        results = list(ex.map(_job, jobs))
 
     known = load_known()
     violations, known_hits, undecided, broken = [], [], [], []
@@ -304,8 +327,9 @@ def baseline():
     out = {}
     for p in props:
         mod = importlib.import_module(f"contracts.{p}")
-        with mp.get_context("fork").Pool(16) as pool:
-            results = pool.map(_job, [(p, i, "quick") for i in range(len(mod.CONTRACTS))], chunksize=1)
+        from concurrent.futures import ProcessPoolExecutor
+        with ProcessPoolExecutor(max_workers=16, mp_context=mp.get_context("fork")) as ex:
+            results = list(ex.map(_job, [(p, i, "quick") for i in range(len(mod.CONTRACTS))]))
         names = sorted({f"{r['contract']}/{o['name']}" for r in results for o in r["obligations"]
                         if o["kind"] != "canary"})
         out[p] = names
